@@ -57,14 +57,87 @@ def report_direct(ctx, data):
                                                    how="./check C10 --replay <this file> re-runs the history in a fresh interpreter"))
 
 
+def transition_witnesses(ctx, cap):
+    """thorough tier: one witness history per (reachable abstract state of a group, admitted action of the group's
+    alphabet), computed by the model inside coqc; returns (path of a JSON file with the histories, n_pairs, n_used)"""
+    with vlib.Lock():
+        ok, log = vlib.make(["Model/C10Witness.vo"], timeout=2400)
+    if not ok:
+        ctx.note("transition witnesses not built: " + log[-300:])
+        return None, 0, 0
+    rundir = os.path.join(vlib.COQ, "Run")
+    os.makedirs(rundir, exist_ok=True)
+    name = "C10_witness"
+    with open(os.path.join(rundir, name + ".v"), "w") as f:
+        f.write("From Coq Require Import String List NArith.\nFrom PT Require Import Attr AttrReach AttrWitness C10Witness.\n"
+                + "".join("Eval vm_compute in (witness_strings10 %d%%N).\n" % g for g in range(8)))
+    rc, out = vlib.sh("timeout 1800 coqc -Q . PT -w -all Run/%s.v" % name, cwd=vlib.COQ, timeout=1900)
+    for fn in os.listdir(rundir):
+        if fn.startswith(name) and not fn.endswith(".v"):
+            os.remove(os.path.join(rundir, fn))
+    if rc != 0:
+        ctx.note("transition witnesses did not evaluate: " + out[-300:])
+        return None, 0, 0
+    hs = []
+    for m in re.finditer(r'"((?:[^"]|"")*)"', out):
+        h = [e.split(",") for e in m.group(1).replace("\n", "").split(";") if e]
+        # table[0] stands for itself only in the covalent_radius group (Model/Attr.v)
+        if any(e[0] in ("read", "has", "set", "mut") and e[2] == "En" and not e[3].startswith("covalent_radius") for e in h):
+            continue
+        hs.append(h)
+    uniq = sorted(set(json.dumps(h) for h in hs))
+    n = len(uniq)
+    if len(uniq) > cap:
+        ctx.rng.shuffle(uniq)
+        uniq = sorted(uniq[:cap])
+    path = os.path.join(vlib.ROOT, "coq", "Run", name + ".json")
+    with open(path, "w") as f:
+        f.write("[" + ",".join(uniq) + "]")
+    return path, n, len(uniq)
+
+
+def spill(ctx):
+    """vlib.Ctx.finish prints and writes replay files for the first five violations only; the further ones are
+    written and printed here in the same format (they are counted by finish())."""
+    seen, n = set(), 0
+    for sig, what, replay, found in ctx.violations:
+        if sig in seen:
+            continue
+        seen.add(sig)
+        n += 1
+        if n <= 5:
+            continue
+        path = os.path.join("replay", "C10-%d.json" % n)
+        doc = dict(property="C10", signature=sig, what=what, seed=ctx.seed, tier=ctx.tier, found_failing_input=found)
+        doc.update(replay)
+        os.makedirs(os.path.join(vlib.ROOT, "replay"), exist_ok=True)
+        with open(os.path.join(vlib.ROOT, path), "w") as f:
+            json.dump(doc, f, indent=1, default=str)
+        print("VIOLATION property=C10 replay=%s%s" % (path, "" if found else " no-failing-input-found"))
+        print("  -> %s" % what)
+
+
 def unexplained(ctx, data):
     return not [d for d in data["direct_fails"] if d["signature"] not in REFUTED and not ctx.signature_known(d["signature"])]
 
 
 def run(ctx):
+    try:
+        _run(ctx)
+    finally:
+        spill(ctx)
+
+
+def _run(ctx):
     proved = vlib.prove(ctx, timeout=2400)
     quick = ctx.tier == "quick"
-    data = vlib.run_harness("c10.py", [ctx.seed, ctx.tier], timeout=12000)
+    args = [ctx.seed, ctx.tier]
+    if not quick and proved:
+        wpath, npairs, nused = transition_witnesses(ctx, 4000)
+        if wpath:
+            args += [2000, wpath]
+            ctx.cov["transition_coverage"] = dict(pairs=npairs, histories_run=nused)
+    data = vlib.run_harness("c10.py", args, timeout=20000)
     cases, meta, st = data["cases"], data["meta"], data["stats"]
     ctx.cov["rule"] = ("one fresh interpreter per history; per group sequences (length <= 3%s) over {public touch, init(p1), "
                        "init(p2), read p1, assign p1, mutate p1 (covered / uncovered atom), read p2} packed one group per slot; "
